@@ -60,9 +60,11 @@ From BFG Require Import Make.MakeHeader Make.MakeHeaderProofs.
 (* the header  targets: prerequisites | order-only  written by _write_rule for representable names (target_ok /
    dep_ok; here additionally without a dollar sign, whose doubling is undone by the expansion that precedes the
    parse: C04_dollar_injective, C01_make_dollar_roundtrip) is split by GNU Make - first unescaped colon, unescaped
-   bar, blank-separated words with backslash escapes - into exactly the three declared lists *)
+   bar, blank-separated words with backslash escapes - into exactly the three declared lists; ar_free excludes the
+   lists GNU Make reads as archive members  lib(member)  /  lib(m1 m2)  , for which the format has no spelling *)
 Theorem C04_make_rule_rt : forall us ts ds os,
   ts <> [] -> forallb (tname_ok us) ts = true -> forallb (dname_ok us) ds = true -> forallb (oname_ok us) os = true ->
+  ar_free ts = true -> ar_free ds = true -> ar_free os = true ->
   parse_rule_header (header_text us ts ds os) = Some (ts, ds, os).
 Proof. exact rule_header_rt. Qed.
 Print Assumptions C04_make_rule_rt.
@@ -71,6 +73,7 @@ Example C04_make_rule_rt_nonvacuous :
   let nu := fun _ : char => false in
   let ts := [STR "my prog"; STR "a:b#c"; STR "100%"] in let ds := [STR "d r/ma in.c"; STR "x|y"; STR "p:q"] in let os := [STR "prog.int/d r/.dir"] in
   forallb (tname_ok nu) ts = true /\ forallb (dname_ok nu) ds = true /\ forallb (oname_ok nu) os = true /\
+  ar_free ts = true /\ ar_free ds = true /\ ar_free os = true /\
   parse_rule_header (header_text nu ts ds os) = Some (ts, ds, os) /\
   parse_rule_header (header_text nu ts [] os) = Some (ts, [], os) /\ parse_rule_header (header_text nu ts ds []) = Some (ts, ds, []).
 Proof. repeat split; vm_compute; reflexivity. Qed.
@@ -79,10 +82,21 @@ Proof. repeat split; vm_compute; reflexivity. Qed.
    escapes it as on the prerequisite side, but after the separating bar GNU Make keeps that backslash *)
 Theorem C04_make_rule_oo_bar_refuted : exists ts ds os,
   forallb (tname_ok (fun _ => false)) ts = true /\ forallb (dname_ok (fun _ => false)) ds = true /\
-  forallb (dname_ok (fun _ => false)) os = true /\
+  forallb (dname_ok (fun _ => false)) os = true /\ ar_free ts = true /\ ar_free ds = true /\ ar_free os = true /\
   parse_rule_header (header_text (fun _ => false) ts ds os) <> Some (ts, ds, os).
 Proof. exists [STR "out"], [STR "in"], [STR "a|b/.dir"]. repeat split; try reflexivity. vm_compute. discriminate. Qed.
 Print Assumptions C04_make_rule_oo_bar_refuted.
+
+(* the archive-member reading (ar_free) is a limit of the format, not of the escaping: names that pass the
+   character guard but form  lib(member)  or an archive group  lib(m1 m2)  are rejected by the reference reading
+   whatever is written (GNU Make has no escape for the parenthesis there) *)
+Example C04_make_archive_outside :
+  let nu := fun _ : char => false in
+  forallb (tname_ok nu) [STR "a(b"; STR "a)"] = true /\ parse_rule_header (header_text nu [STR "a(b"; STR "a)"] [] []) = None /\
+  forallb (tname_ok nu) [STR "data (1)"] = true /\ parse_rule_header (header_text nu [STR "data (1)"] [] []) = None /\
+  parse_rule_header (header_text nu [STR "(x)"; STR "y)"; STR "foo(1).o"] [STR "p(q"] [STR "r)"]) =
+    Some ([STR "(x)"; STR "y)"; STR "foo(1).o"], [STR "p(q"], [STR "r)"]).
+Proof. repeat split; vm_compute; reflexivity. Qed.
 
 (* the sentinel  dir/.dir  of a representable directory is a representable target (so C04_make_target_rt and
    C04_make_rule_rt apply to it), and  patsubst %/.dir,%  gives the directory back when it contains no blank *)
